@@ -323,6 +323,13 @@ func c13IsEntry(p *Prog, e *LockEngine, fn *ssa.Function) bool {
 			if cell, ok := u.Addr.(*ssa.Alloc); ok && u.Val == v && c13CellOnlyCalled(p, cell, 0) {
 				return
 			}
+			// an element of a local literal table (array / slice of steps) whose
+			// elements are only fetched and called
+			if ia, ok := u.Addr.(*ssa.IndexAddr); ok && u.Val == v {
+				if arr, ok := ia.X.(*ssa.Alloc); ok && c13TableOnlyCalled(p, arr, 0) {
+					return
+				}
+			}
 			entry = true
 		case *ssa.ChangeType:
 			for _, r := range refs(u) {
@@ -410,6 +417,62 @@ func c13CellOnlyCalled(p *Prog, cell ssa.Value, depth int) bool {
 				if b == cell && i < len(fn.FreeVars) && !c13CellOnlyCalled(p, fn.FreeVars[i], depth+1) {
 					return false
 				}
+			}
+		case *ssa.DebugRef:
+		default:
+			return false
+		}
+	}
+	return true
+}
+
+// c13TableOnlyCalled: the local array (possibly sliced) is only indexed, its
+// elements only stored to or loaded and called (or handed to module functions).
+func c13TableOnlyCalled(p *Prog, v ssa.Value, depth int) bool {
+	if depth > 3 {
+		return false
+	}
+	for _, r := range refs(v) {
+		switch u := r.(type) {
+		case *ssa.IndexAddr:
+			for _, rr := range refs(u) {
+				switch w := rr.(type) {
+				case *ssa.Store:
+					if w.Addr != ssa.Value(u) {
+						return false
+					}
+				case *ssa.UnOp:
+					for _, r3 := range refs(w) {
+						switch c := r3.(type) {
+						case *ssa.Call:
+							if c.Call.Value == ssa.Value(w) {
+								continue
+							}
+							if cal := staticCallee(c); cal != nil && p.InModule(cal) {
+								continue
+							}
+							return false
+						case *ssa.Defer:
+							if c.Call.Value != ssa.Value(w) {
+								return false
+							}
+						case *ssa.DebugRef:
+						default:
+							return false
+						}
+					}
+				case *ssa.DebugRef:
+				default:
+					return false
+				}
+			}
+		case *ssa.Slice:
+			if !c13TableOnlyCalled(p, u, depth+1) {
+				return false
+			}
+		case *ssa.Call:
+			if b, ok := u.Call.Value.(*ssa.Builtin); !ok || (b.Name() != "len" && b.Name() != "cap") {
+				return false
 			}
 		case *ssa.DebugRef:
 		default:
